@@ -42,15 +42,22 @@
        gives for duplicate-free labels)
                  [C09_x86_share_block, C09_x86_erase_block, C09_x86_release_block, C09_x86_acquire_block_reg/_spill, C09_x86_image]
 
+     * ROUND 2 - programs: the linear machine instrumented with the abstract heap (Sem/AxHeap.v) observes what
+       exec_linear observes; for every linearity-checked program every reachable configuration satisfies InvA with
+       roots = the pointers of the environment = the non-ext variables of the statement's typing context, every value
+       is represented at its pointer, chains are owned (the former precondition obj_ok / links_ok is now an invariant),
+       and every emitted operation meets its precondition: the operation trace of every run satisfies pre_trace, so
+       all trace theorems are theorems about programs       [C09_program_heap_safe, C09_program_step_safe, C09_program_*]
+     * ROUND 2 - x86-64: the emitted code of store (let / create) and load (switch / invoke), any number of fields,
+       registers and spill slots, both load modes, refines alloc_object / load_object   [C09_x86_store*, C09_x86_load*]
+
    NOT YET PROVED (visible as missing theorems)
-     * the lifting from operation traces to AxCut programs (each statement's code is a sequence of
-       these operations with R = the pointers of the environment, and the preconditions - in
-       particular `obj_ok`: continuation blocks of an object have header 0 and no other referrer -
-       follow from typing).  That link is checked by executing the implementation's code with the
-       invariant evaluated at every statement boundary, see the evidence;
-     * refinement of store and load (store_values / store_fields / load_fields, which depend on
-       typing contexts) to the x86-64 code: checked operation by operation against Model/Heap.step
-       by the heapops-x86 correspondence step; and anything about the AArch64 / RISC-V code;
+     * that the emitted code of a whole statement is the operation sequence the instrumented machine lists
+       (simulation of code_statement; the hypotheses of the per-operation refinement theorems are not yet derived
+       from InvA + rep, and the composition with the parallel moves of C11 is not done).  That link is checked on every
+       run by the step heaplock-x86: the real x86-64 code in lockstep with the instrumented machine, registers,
+       variable pointers and every block below the frontier compared at every statement boundary;
+     * anything about the AArch64 / RISC-V code (the abstract machine and the program theorems are back-end independent);
      * "touches no memory outside heap, spill area and pushes": faults of the ISA model in the
        executed runs, not a theorem. *)
 From Coq Require Import List ZArith NArith Permutation FMapPositive.
@@ -317,3 +324,354 @@ Theorem C09_x86_steps_run :
     exists n, forall fuel, run_chunk (n + fuel) im pc s = run_chunk fuel im pc' s'.
 Proof. exact steps_run_chunk. Qed.
 Print Assumptions C09_x86_steps_run.
+
+(* ====================================================================================== *)
+(* PROGRAMS generate well-formed allocator traces (round 2).
+   Sem/AxHeap.v instruments the linear machine `exec_linear` with the abstract allocator: every
+   environment entry carries the word of its first temporary (pointer, 0 for integers and for
+   field-less objects), every step emits the allocator operations the code of `code_statement`
+   performs for that statement (substitute: erase / share_n per binding in the key order of
+   `Backend.transpose`; let / create: OAllocObj of the stored pointers; switch / invoke: OLoadObj of
+   the consumed object), and the heap component evolves by Heap.step only. *)
+From SCC Require Import Lang.AxSyn Model.Linearize Model.LinCheck Sem.AxHeap.
+From SCC Require Import Proof.LinTyping Proof.LinearizeProof Proof.AxHeapErase Proof.AxHeapTyping Proof.HeapRep Proof.AxHeapSafe
+  Proof.AxHeapProps Proof.AxHeapExample Proof.AxHeapExampleFacts.
+
+(* the instrumentation does not change what is observed: erasing pointers and heap gives exec_linear *)
+Theorem C09_instrumented_machine_erases : forall p fuel c out tr,
+  fst (fst (hexec fuel p c out tr)) = AxSem.exec_linear fuel p (erase_env (hc_env c)) (hc_stmt c) out.
+Proof. exact hexec_erase. Qed.
+Print Assumptions C09_instrumented_machine_erases.
+
+Theorem C09_instrumented_run_observes_run_linear : forall fuel base p args,
+  match hrun_prog fuel base p args with
+  | Some r => fst (fst r) = AxSem.run_linear fuel p args
+  | None => exists w, AxSem.run_linear fuel p args = ([], AxSem.OStuck w)
+  end.
+Proof. exact hrun_prog_erase. Qed.
+Print Assumptions C09_instrumented_run_observes_run_linear.
+
+(* what the runner returns is a reachable configuration with the trace it returns *)
+Theorem C09_runner_reaches : forall fuel base p args o c tr,
+  hrun_prog fuel base p args = Some (o, c, tr) -> hreach base p args tr c.
+Proof. exact hrun_prog_reach. Qed.
+Print Assumptions C09_runner_reaches.
+
+(* type preservation of the machine: the environment stays the typing context of the statement *)
+Theorem C09_machine_type_preservation : forall p he hs s ops he' s' pr,
+  lin_check_prog p = true -> cfg_wt p he s -> hstep p he hs s = HStep ops he' s' pr -> cfg_wt p he' s'.
+Proof. exact hstep_wt. Qed.
+Print Assumptions C09_machine_type_preservation.
+
+(* ONE STEP: in a configuration satisfying the invariant (InvA with roots = pointers of the
+   environment, values represented, chains owned) every operation of the step meets its precondition
+   in the state in which it is executed, and the invariant holds afterwards *)
+Theorem C09_program_step_safe : forall base p he hs s ops he' s' pr,
+  cfg_wt p he s -> HInv base he hs -> hstep p he hs s = HStep ops he' s' pr ->
+  pre_trace hs (roots he) ops /\
+  Permutation (snd (grun ops (hs, roots he))) (roots he') /\
+  HInv base he' (hrun ops hs).
+Proof. exact hstep_safe. Qed.
+Print Assumptions C09_program_step_safe.
+
+(* THE MAIN THEOREM.  For a linearity-checked program whose entry takes integers, in every
+   configuration c reached from the initial one (allocator state `init base`) with operation trace tr:
+   tr satisfies `pre_trace` (so every theorem above about traces applies to tr), the heap of c is the
+   result of tr, the ghost roots are the non-null pointers of the environment, the strengthened
+   invariant holds with exactly these roots, every value is represented at its pointer, and the
+   environment is typed by the context of the statement. *)
+Theorem C09_program_heap_safe : forall base p args tr c,
+  lin_check_prog p = true -> entry_ext p = true -> 0 < base ->
+  hreach base p args tr c ->
+  pre_trace (init base) [] tr /\
+  hc_heap c = fst (grun tr (init base, [])) /\
+  Permutation (snd (grun tr (init base, []))) (roots (hc_env c)) /\
+  (exists hl fl cl, InvA base (hc_heap c) (roots (hc_env c)) hl fl cl) /\
+  (exists lk, KI lk (hc_heap c) (roots (hc_env c)) /\ env_rep lk (hc_heap c) (hc_env c)) /\
+  cfg_wt p (hc_env c) (hc_stmt c).
+Proof. exact program_heap_safe. Qed.
+Print Assumptions C09_program_heap_safe.
+
+(* roots = context: the bindings reconstructed from the environment (`ctx_of`: name, kind and type of
+   each value) ARE the typing context cx of the statement - the context `code_statement` threads -
+   and the roots are the pointers of its non-ext variables (an ext variable has pointer 0) *)
+Theorem C09_program_roots_are_context : forall base p args,
+  lin_check_prog p = true -> entry_ext p = true -> 0 < base ->
+  forall tr c, hreach base p args tr c ->
+  (exists hl fl cl, InvA base (hc_heap c) (roots (hc_env c)) hl fl cl) /\
+  (exists cx, lin_wt (sigs_of p) cx (hc_stmt c) /\ ctx_of (hc_env c) = cx /\
+              forall en, In en (hc_env c) -> chi_of (h_val en) = AxSyn.Ext -> h_ptr en = 0).
+Proof. exact prog_inv. Qed.
+Print Assumptions C09_program_roots_are_context.
+
+(* the same for everything the compiler's linearization pass produces from a checked named program *)
+Theorem C09_compiled_program_heap_safe : forall base p args tr c,
+  prog_ok p = true -> entry_ext (linearize p) = true -> 0 < base ->
+  hreach base (linearize p) args tr c ->
+  pre_trace (init base) [] tr /\
+  (exists hl fl cl, InvA base (hc_heap c) (roots (hc_env c)) hl fl cl).
+Proof. exact compiled_program_heap_safe. Qed.
+Print Assumptions C09_compiled_program_heap_safe.
+
+Theorem C09_program_no_use_after_release : forall base p args,
+  lin_check_prog p = true -> entry_ext p = true -> 0 < base ->
+  forall tr c b, hreach base p args tr c -> reach (m (hc_heap c)) (roots (hc_env c)) b ->
+  exists hl fl cl, InvA base (hc_heap c) (roots (hc_env c)) hl fl cl /\ In b cl /\ ~ In b hl /\ ~ In b fl.
+Proof. exact prog_no_use_after_release. Qed.
+Print Assumptions C09_program_no_use_after_release.
+
+Theorem C09_program_no_double_release : forall base p args,
+  lin_check_prog p = true -> entry_ext p = true -> 0 < base ->
+  forall tr c en, hreach base p args tr c -> In en (hc_env c) -> h_ptr en <> 0 ->
+  exists hl fl cl, InvA base (hc_heap c) (roots (hc_env c)) hl fl cl /\ ~ In (h_ptr en) (hl ++ fl) /\ In (h_ptr en) cl.
+Proof. exact prog_no_double_release. Qed.
+Print Assumptions C09_program_no_double_release.
+
+Theorem C09_program_classification : forall base p args,
+  lin_check_prog p = true -> entry_ext p = true -> 0 < base ->
+  forall tr c a, hreach base p args tr c -> blk base a -> a < frontier (hc_heap c) ->
+  exists hl fl cl, InvA base (hc_heap c) (roots (hc_env c)) hl fl cl /\
+   ((In a hl /\ ~ In a fl /\ ~ In a cl) \/ (In a fl /\ ~ In a hl /\ ~ In a cl) \/
+    (In a cl /\ ~ In a hl /\ ~ In a fl /\
+     (reach (m (hc_heap c)) (roots (hc_env c)) a \/ reach (m (hc_heap c)) (deferred_slots (hc_heap c) fl) a))).
+Proof. exact prog_classification. Qed.
+Print Assumptions C09_program_classification.
+
+(* no leak at exit: when no variable holds a pointer every block is free, deferred, or waits beneath
+   a deferred block *)
+Theorem C09_program_exit_no_leak : forall base p args,
+  lin_check_prog p = true -> entry_ext p = true -> 0 < base ->
+  forall tr c a, hreach base p args tr c -> roots (hc_env c) = [] -> blk base a -> a < frontier (hc_heap c) ->
+  exists hl fl cl, InvA base (hc_heap c) [] hl fl cl /\
+    (In a hl \/ In a fl \/ (In a cl /\ reach (m (hc_heap c)) (deferred_slots (hc_heap c) fl) a)).
+Proof. exact prog_exit_no_leak. Qed.
+Print Assumptions C09_program_exit_no_leak.
+
+(* the heap-side ingredients: what `alloc_object` builds is read back by `obj_fields`, chains are
+   owned, everything reachable from the old roots keeps its slots; the load of a represented object
+   meets its precondition and keeps the chain invariant *)
+Theorem C09_alloc_object_represents : forall base lk s R R0 hl fl cl fields,
+  InvA base s R hl fl cl -> KI lk s R -> Permutation R (nz fields ++ R0) -> fields <> [] ->
+  exists lk' j' hl' fl' cl',
+    let r := alloc_object fields s in
+    InvA base (snd r) (fst r :: R0) hl' fl' cl' /\ KI lk' (snd r) (fst r :: R0) /\ fst r <> 0 /\
+    lk' (fst r) = nlinks (length fields) /\ links_ok (lk' (fst r)) (m (snd r)) (fst r) /\
+    obj_fields (lk' (fst r)) (m (snd r)) (fst r) = repeat 0 j' ++ fields /\
+    (forall b, reach (m s) R b ->
+       ps (m (snd r) b) = ps (m s b) /\ lk' b = lk b /\ reach (m (snd r)) (fst r :: R0) b).
+Proof. exact HeapRepAlloc.alloc_object_rep. Qed.
+Print Assumptions C09_alloc_object_represents.
+
+Theorem C09_load_object_precondition_from_chain_invariant : forall base lk s R R0 hl fl cl p k j pl,
+  InvA base s R hl fl cl -> KI lk s R -> Permutation R (p :: R0) -> p <> 0 ->
+  lk p = k -> obj_fields k (m s) p = repeat 0 j ++ pl ->
+  pre s R (OLoadObj k p) /\
+  (exists hl' fl' cl', InvA base (load_object k p s) (nz pl ++ R0) hl' fl' cl') /\
+  KI lk (load_object k p s) (nz pl ++ R0).
+Proof. exact HeapRepLoad.load_object_KI. Qed.
+Print Assumptions C09_load_object_precondition_from_chain_invariant.
+
+(* ---------- non-vacuity: a concrete program (Proof/AxHeapExample.v) ---------- *)
+(* named AxCut, checked; its linearization (by the model of the compiler pass) is linearity-checked
+   and takes integers *)
+Example C09_example_program_checked : prog_ok hx_prog = true /\ lin_check_prog hx_lin = true /\ entry_ext hx_lin = true.
+Proof. exact hx_checked. Qed.
+Print Assumptions C09_example_program_checked.
+
+(* its run with 3 iterations performs these 32 operations (allocation of 0-, 1- and 2-block objects,
+   sharing, destructive load of a chain, non-destructive and destructive load of a shared list,
+   erasure onto the deferred list, recycling, a closure environment) ... *)
+Example C09_example_program_trace : hx_trace 3 =
+  [OAllocObj [0]; OAllocObj []; OAllocObj [0; 0]; OAllocObj [0; 4160]; OShare 4224 1;
+   OAllocObj [0; 0; 4224; 0; 4224]; OLoadObj 1 4352; OLoadObj 0 4224; OErase 4160; OLoadObj 0 4224; OErase 4160;
+   OAllocObj []; OAllocObj [0; 0]; OAllocObj [0; 4224]; OShare 4288 1;
+   OAllocObj [0; 0; 4288; 0; 4288]; OLoadObj 1 4416; OLoadObj 0 4288; OErase 4224; OLoadObj 0 4288; OErase 4224;
+   OAllocObj []; OAllocObj [0; 0]; OAllocObj [0; 4288]; OShare 4352 1;
+   OAllocObj [0; 0; 4352; 0; 4352]; OLoadObj 1 4160; OLoadObj 0 4352; OErase 4288; OLoadObj 0 4352; OErase 4288;
+   OLoadObj 0 4096].
+Proof. exact hx_trace_3. Qed.
+Print Assumptions C09_example_program_trace.
+
+(* ... it is a reachable configuration's trace, so by C09_program_heap_safe every precondition holds
+   along it; the boolean form of the preconditions, evaluated, agrees *)
+Example C09_example_program_reachable :
+  exists c, hreach 4096 hx_lin [3; 100] (hx_trace 3) c /\ frontier (hc_heap c) = 4480.
+Proof. exact (hx_reach 3 _ _ hx_frontier_3). Qed.
+Print Assumptions C09_example_program_reachable.
+Example C09_example_program_trace_wf :
+  pre_trace (init 4096) [] (hx_trace 3) /\ pre_traceb (init 4096) [] (hx_trace 3) = true.
+Proof. exact (conj (hx_trace_wf 3 _ _ hx_frontier_3) hx_trace_wf_computed). Qed.
+Print Assumptions C09_example_program_trace_wf.
+
+(* ====================================================================================== *)
+(* store / load at the x86-64 level (round 2): the emitted code of `x_store` (let / create) and
+   `x_load` (switch / invoke) refines the abstract `alloc_object` / `load_object`, for any number of
+   fields (chains of blocks), all variables in registers or spill slots (`tpos k` is the temporary of
+   position k), both load modes.  Proof/X86MemFrame.v, X86MemStore.v, X86MemLoad.v,
+   X86MemStoreChain.v, X86MemLoadChain.v.
+     vals_ok s sp val E bs   the variables bs sit at positions E, E+1, ...: second temporaries (and
+                             first temporaries of non-ext variables) hold `val`
+     fsts val E bs           their pointer slots, left to right, 0 for ext variables
+     alloc_object_pre        the precondition of `acquire_block` (as in C09_x86_acquire_block_reg)
+                             before each block of the chain, stated on the abstract state
+     lf_share_ok             every link of the chain is a block, every pointer slot is 0 or a block,
+                             unused slots and slots of ext fields are 0 (what `store` establishes) *)
+From SCC Require Import Model.Backend Proof.X86MemFrame Proof.X86MemStore Proof.X86MemLoad Proof.X86MemStoreChain Proof.X86MemLoadChain.
+
+(* the straight-line stores into the reserved block *)
+Theorem C09_x86_store_values :
+  forall im pos (to_store_next : list binding) (remaining_plus_rest : ctx) cap cs s sp rv F val,
+    store_values (rev to_store_next) remaining_plus_rest HEAP cap = Ok cs ->
+    (cap = 3 \/ cap = 2)%N -> (N.of_nat (length to_store_next) <= cap)%N ->
+    code_at im pos cs -> frame_ok s sp -> rget s HEAP = Some rv -> is_blk rv ->
+    vals_ok s sp val (length remaining_plus_rest) to_store_next ->
+    exists s', steps im pos s (pnth pos (length cs)) s' /\ same_but_temp s s' /\
+      stored (hword s') (hword s) val (length remaining_plus_rest) to_store_next rv cap /\
+      st_eqB (abs_heap F s')
+        {| Heap.m := Heap.set_ps (abs_mem s) rv
+                       (Heap.pad (N.to_nat cap) (fsts val (length remaining_plus_rest) to_store_next) ++ link_slot cap (hword s) rv);
+           Heap.heap := reg_or0 s HEAP; Heap.free := reg_or0 s FREE; Heap.frontier := F |}.
+Proof. exact x86_store_values_ok. Qed.
+Print Assumptions C09_x86_store_values.
+
+(* one block: store_values + acquire_block = Heap.alloc; the integer slots hold the second temporaries *)
+Theorem C09_x86_store_one_block :
+  forall im pos (to_store remaining : ctx) lc cs lc' s sp rv h2 F val,
+    x_store to_store remaining lc = Ok (cs, lc') -> (1 <= length to_store <= 3)%nat ->
+    code_at im pos cs -> labels_at im pos cs -> frame_ok s sp ->
+    rget s HEAP = Some rv -> is_blk rv -> rget s FREE = Some h2 ->
+    (hword s rv = 0 -> is_blk h2) ->
+    (hword s rv = 0 -> hword s h2 <> 0 ->
+       (forall off, off = 16 \/ off = 32 \/ off = 48 -> hword s (h2 + off) = 0 \/ is_blk (hword s (h2 + off))) /\
+       bounded 3 s (hword s h2)) ->
+    vals_ok s sp val (length remaining) to_store ->
+    let E := length remaining in let n := length to_store in
+    let res := Heap.alloc (Heap.pad 3 (fsts val E to_store)) (abs_heap F s) in
+    exists s', steps im pos s (pnth pos (length cs)) s' /\
+      st_eqB (abs_heap (Heap.frontier (snd res)) s') (snd res) /\ fst res = rv /\
+      lget s' sp (tpos (2 * N.of_nat E)) = Some rv /\
+      (forall i, (i < n)%nat -> hword s' (rv + field_offset Snd (3 - N.of_nat n + N.of_nat i)) = snd_slot val (E + i)) /\
+      (forall k, (k < MAXPOS)%N -> k <> (2 * N.of_nat E)%N -> lget s' sp (tpos k) = lget s sp (tpos k)) /\
+      out s' = out s /\ frame_ok s' sp.
+Proof. exact x86_store_one_block_ok. Qed.
+Print Assumptions C09_x86_store_one_block.
+
+(* nothing to store: the pointer is 0, nothing is allocated *)
+Theorem C09_x86_store_empty :
+  forall im pos (remaining : ctx) lc cs lc' s sp,
+    x_store nil remaining lc = Ok (cs, lc') -> code_at im pos cs -> frame_ok s sp ->
+    lc' = lc /\
+    exists s', steps im pos s (pnth pos (length cs)) s' /\
+      lget s' sp (tpos (2 * N.of_nat (length remaining))) = Some 0 /\
+      (forall l, loc_ok l -> l <> tpos (2 * N.of_nat (length remaining)) -> l <> XR TEMP -> lget s' sp l = lget s sp l) /\
+      X86Sem.heap s' = X86Sem.heap s /\ out s' = out s /\ frame_ok s' sp.
+Proof. exact x86_store_empty_ok. Qed.
+Print Assumptions C09_x86_store_empty.
+
+(* any number of fields: store_fields = Heap.alloc_object *)
+Theorem C09_x86_store :
+  forall im pos (to_store remaining : ctx) lc cs lc' s sp F val,
+    x_store to_store remaining lc = Ok (cs, lc') -> to_store <> nil ->
+    code_at im pos cs -> labels_at im pos cs -> frame_ok s sp ->
+    vals_ok s sp val (length remaining) to_store ->
+    alloc_object_pre (fsts val (length remaining) to_store) (abs_heap F s) ->
+    let res := Heap.alloc_object (fsts val (length remaining) to_store) (abs_heap F s) in
+    exists s', steps im pos s (pnth pos (length cs)) s' /\
+      st_eqB (abs_heap (Heap.frontier (snd res)) s') (snd res) /\
+      lget s' sp (tpos (2 * N.of_nat (length remaining))) = Some (fst res) /\
+      (forall k, (k < 2 * N.of_nat (length remaining))%N -> lget s' sp (tpos k) = lget s sp (tpos k)) /\
+      out s' = out s /\ frame_ok s' sp.
+Proof. exact x86_store_ok. Qed.
+Print Assumptions C09_x86_store.
+
+(* one block: the header test, then release or decrement-and-share = Heap.load *)
+Theorem C09_x86_load_one_block :
+  forall im pos (to_load existing : ctx) lc cs lc' s sp p h F,
+    x_load to_load existing lc = Ok (cs, lc') -> (1 <= length to_load <= 3)%nat ->
+    code_at im pos cs -> labels_at im pos cs -> frame_ok s sp ->
+    lget s sp (tpos (2 * N.of_nat (length existing))) = Some p -> is_blk p -> rget s HEAP = Some h ->
+    load_pre s p (length existing) to_load ->
+    exists s', steps im pos s (pnth pos (length cs)) s' /\
+      st_eqB (abs_heap F s') (Heap.load p (abs_heap F s)) /\
+      (forall i b, nth_error to_load i = Some b ->
+         lget s' sp (tpos (2 * N.of_nat (length existing + i) + 1)) =
+           Some (hword s (p + field_offset Snd (3 - N.of_nat (length to_load) + N.of_nat i))) /\
+         (bchi b <> AxSyn.Ext -> lget s' sp (tpos (2 * N.of_nat (length existing + i))) =
+           Some (hword s (p + field_offset Fst (3 - N.of_nat (length to_load) + N.of_nat i))))) /\
+      (forall k, (k < 2 * N.of_nat (length existing))%N -> lget s' sp (tpos k) = lget s sp (tpos k)) /\
+      out s' = out s /\ frame_ok s' sp.
+Proof. exact x86_load_one_block_ok. Qed.
+Print Assumptions C09_x86_load_one_block.
+
+(* any number of fields: load_fields in either mode = Heap.load_object (nlinks n) *)
+Theorem C09_x86_load :
+  forall im pos (to_load existing : ctx) lc cs lc' s sp p h F,
+    x_load to_load existing lc = Ok (cs, lc') -> to_load <> nil ->
+    code_at im pos cs -> labels_at im pos cs -> frame_ok s sp ->
+    lget s sp (tpos (2 * N.of_nat (length existing))) = Some p -> is_blk p -> rget s HEAP = Some h ->
+    lf_share_ok (S (length to_load)) (hword s) to_load Last p ->
+    (forall x, is_blk x -> AxSem.min_int + 1 <= hword s x /\ hword s x + Z.of_nat (length to_load) <= AxSem.max_int) ->
+    exists s', steps im pos s (pnth pos (length cs)) s' /\
+      st_eqB (abs_heap F s') (Heap.load_object (Heap.nlinks (length to_load)) p (abs_heap F s)) /\
+      (forall i b, nth_error to_load i = Some b ->
+         let A := lf_addrs (S (length to_load)) (hword s) to_load Last p in
+         let a := nth (length A - length to_load + i) A 0 in
+         lget s' sp (tpos (2 * N.of_nat (length existing + i) + 1)) = Some (hword s (a + 8)) /\
+         (bchi b <> AxSyn.Ext -> lget s' sp (tpos (2 * N.of_nat (length existing + i))) = Some (hword s a))) /\
+      (forall k, (k < 2 * N.of_nat (length existing))%N -> lget s' sp (tpos k) = lget s sp (tpos k)) /\
+      out s' = out s /\ frame_ok s' sp.
+Proof. exact x86_load_ok. Qed.
+Print Assumptions C09_x86_load.
+
+(* non-vacuity: concrete code lists in mk_image *)
+Example C09_x86_store_example :
+  let a := abs_heap (HEAP_BASE + 64) ex5_state in
+  let res0 := Heap.alloc_object (fsts ex5_val 0 ex5_store) a in
+  exists lc', x_store ex5_store nil 0 = Ok (ex5_code, lc') /\
+    fsts ex5_val 0 ex5_store = 0 :: 102 :: 0 :: 106 :: 0 :: nil /\
+    fst res0 = HEAP_BASE + 64 /\ Heap.frontier (snd res0) = HEAP_BASE + 192 /\
+    exists s', steps (mk_image ex5_code) 1 ex5_state (pnth 1 (length ex5_code)) s' /\
+      st_eqB (abs_heap (HEAP_BASE + 192) s') (snd res0) /\ rget s' 4 = Some (HEAP_BASE + 64).
+Proof. exact x86_store_example. Qed.
+Print Assumptions C09_x86_store_example.
+
+Example C09_x86_load_example :
+  exists lc', x_load ex5_store ex6_existing 0 = Ok (ex6_code, lc') /\
+    exists s', steps (mk_image ex6_code) 1 ex6_state (pnth 1 (length ex6_code)) s' /\
+      st_eqB (abs_heap (HEAP_BASE + 256) s') (Heap.load_object 1 HEAP_BASE (abs_heap (HEAP_BASE + 256) ex6_state)) /\
+      sget s' ex_sp 2 = Some 11 /\ sget s' ex_sp 3 = Some (HEAP_BASE + 128) /\ sget s' ex_sp 10 = Some 55 /\ rget s' 4 = Some 777.
+Proof. exact x86_load_example. Qed.
+Print Assumptions C09_x86_load_example.
+
+(* the memory part of `substitute` at the x86-64 level: the code `code_weakening_contraction` emits for
+   the transposed map tm - an erase_block or a share_block_n per non-ext binding, in the order of tm -
+   refines exactly the operation list the instrumented machine performs for the substitution
+   (Sem/AxHeap.v `subst_ops` = these `rc_op`s for tm = Backend.transpose re (ctx_of he)).  `hb lo hi`:
+   all headers and the free pointer are lo above min_int and hi below max_int, so the counts do not wrap *)
+From SCC Require Import Proof.X86MemSubstOps.
+Theorem C09_x86_substitute_memory :
+  forall im (ptr : binding -> Z) context F sp tm lc cs lc' pos s f,
+    code_weakening_contraction x86_backend tm context lc = Ok (cs, lc') ->
+    code_at im pos cs -> labels_at im pos cs -> frame_ok s sp -> rget s FREE = Some f ->
+    (forall b targets t, In (b, targets) tm -> bchi b <> AxSyn.Ext ->
+       variable_temporary x86_backend Fst context (idn (bvar b)) = Ok t ->
+       lget s sp t = Some (ptr b) /\ (ptr b = 0 \/ is_blk (ptr b))) ->
+    let acts := tm_acts ptr context tm in
+    hb (n_erase acts) (n_share acts) s f -> n_share acts <= 2 ^ 31 - 1 -> n_erase acts <= 2 ^ 31 - 1 ->
+    let ops := flat_map (fun bt : binding * list N => rc_op (bchi (fst bt)) (ptr (fst bt)) (length (snd bt))) tm in
+    exists s', steps im pos s (pnth pos (length cs)) s' /\
+      st_eqB (abs_heap F s') (hrun ops (abs_heap F s)) /\
+      same_but_temp_free s s' /\ frame_ok s' sp /\
+      rget s' FREE = Some (Heap.free (hrun ops (abs_heap F s))).
+Proof. exact x86_weakening_contraction_ok. Qed.
+Print Assumptions C09_x86_substitute_memory.
+
+Example C09_x86_substitute_memory_example :
+  let ops := flat_map (fun bt : binding * list N => rc_op (bchi (fst bt)) (exs_ptr (fst bt)) (length (snd bt))) exs_tm in
+  ops = Heap.OErase (HEAP_BASE + 64) :: Heap.OShare (HEAP_BASE + 128) 1 :: nil /\
+  exists lc', code_weakening_contraction x86_backend exs_tm exs_ctx 0 = Ok (exs_code, lc') /\
+  exists s', steps (mk_image exs_code) 1 exs_state (pnth 1 (length exs_code)) s' /\
+    st_eqB (abs_heap (HEAP_BASE + 192) s') (hrun ops (abs_heap (HEAP_BASE + 192) exs_state)) /\
+    rget s' FREE = Some (HEAP_BASE + 64) /\ hword s' (HEAP_BASE + 64) = HEAP_BASE + 192 /\ hword s' (HEAP_BASE + 128) = 1.
+Proof. exact x86_substitute_memory_example. Qed.
+Print Assumptions C09_x86_substitute_memory_example.
